@@ -188,6 +188,30 @@ def monC01 (h : Hist) : Option String :=
           if swrOk then none
           else some s!"exchange {ri.n}: stale response served without origin contact: age={Spec.currentAge parse s now} lifetime={Spec.freshnessLifetime Spec.rfc parse s} (ns), request [{showHdrs ri.req.header}], stored [{showHdrs s.header}]{note}"
 
+/-- C12, last sentence ("numeric arguments too large to represent act as a value of at least 2^31 seconds instead of
+    wrapping around"), for the request's min-fresh — the one numeric directive the other clauses do not read: a
+    request that demands at least N ≥ 2^31 seconds of remaining freshness is answered from the store without
+    validation only if at least 2^31 seconds remain -/
+def monHugeMinFresh (h : Hist) : Option String :=
+  let parse := h.glue.parseTime
+  h.reqs.findSome? fun ri => do
+    let x ← h.ex ri
+    if !(x.fromStore && x.fgCalls.isEmpty && isPlainGet ri) then none else
+    match Spec.directiveArg Spec.rfc ri.req.header (str% "min-fresh") with
+    | some (some a) =>
+      if a.isEmpty || !a.all isDigit || natOfDigits a < 2147483648 then none else
+      match x.entry with
+      | none => none
+      | some e =>
+        let s := storedOf e
+        let remaining := Spec.freshnessLifetime Spec.rfc parse s - Spec.currentAge parse s x.res.t0
+        -- (a STALE response served under stale-while-revalidate, max-stale or only-if-cached is another question —
+        --  which permission wins — and not one about numbers: only responses that are fresh are judged)
+        if remaining ≥ 2147483648 * nsPerSec || !Spec.isFresh Spec.rfc parse s x.res.t0 ||
+            Spec.hasDirective Spec.rfc ri.req.header (str% "only-if-cached") || Spec.hasDirective Spec.rfc ri.req.header (str% "max-stale") then none
+        else some s!"exchange {ri.n}: request min-fresh={shw a} (≥ 2^31 s) answered from the store with {remaining} ns of freshness left: the number wrapped around or was ignored"
+    | _ => none
+
 /-! ### C02 -/
 def condHeadersOk (reqH storedH callH : Header) : Bool :=
   let etag := Header.get storedH sETag
